@@ -19,6 +19,8 @@ pkg="${pkg%/}"
 repo="${2:-/repo}"
 repo="$(cd "$repo" && pwd)" || exit 2
 
+dstname=zz_replay_test.go
+testre='^TestVerifReplay$'
 case "$pkg" in
     utils)             src=utils_replay_test.go ;;
     sm2/internal/fiat) src=fiat_replay_test.go ;;
@@ -26,6 +28,7 @@ case "$pkg" in
     sm2)               src=sm2_replay_test.go ;;
     sm3)               src=sm3_replay_test.go ;;
     sm4)               src=sm4_replay_test.go ;;
+    sm4guard)          src=sm4_guard_test.go; pkg=sm4; dstname=zz_guard_test.go; testre='^TestVerifGuard$' ;;
     *) echo "run.sh: no replay test for package dir '$pkg'" >&2; exit 2 ;;
 esac
 
@@ -42,7 +45,7 @@ tmp="$(mktemp -d)"
 trap 'rm -rf "$tmp"' EXIT
 
 cat > "$tmp/overlay.json" <<EOF
-{"Replace": {"$repo/$pkg/zz_replay_test.go": "$here/$src"}}
+{"Replace": {"$repo/$pkg/$dstname": "$here/$src"}}
 EOF
 
 export GOFLAGS=-mod=mod GOPROXY=off GOSUMDB=off GOTOOLCHAIN=local
@@ -50,5 +53,5 @@ export VERIF_FUNCS="${VERIF_FUNCS:-}" VERIF_SEED="${VERIF_SEED:-}" VERIF_N="${VE
 
 cd "$repo" || exit 2
 go test -overlay "$tmp/overlay.json" -vet=off -count=1 -v \
-    -timeout "${VERIF_TIMEOUT:-300}s" -run '^TestVerifReplay$' "./$pkg"
+    -timeout "${VERIF_TIMEOUT:-300}s" -run "$testre" "./$pkg"
 exit $?
